@@ -150,11 +150,22 @@ def build_step(nd, step):
     return cls(**step['opts'])
 
 
-def build(nd, cfg, step_obj='build', wrap=None):
+def build(nd, cfg, step_obj='build', wrap=None, form=0):
+    """form: 0 keywords (the form every reference uses), 1 positional (fun, step, method, order, n), 2 keywords plus the documented
+    default richardson_terms=2 given explicitly, 3 built without full_output and switched on afterwards"""
     st = build_step(nd, cfg['step']) if isinstance(step_obj, str) else step_obj
     cls = cfg.get('cls', 'Derivative')
     if cls == 'Derivative':
         fun = FUNS[cfg['fun']] if wrap is None else wrap(FUNS[cfg['fun']])
+        if form == 1:
+            return nd.Derivative(fun, st, cfg['method'], cfg['order'], cfg['n'], full_output=True)
+        if form == 2:
+            return nd.Derivative(fun, step=st, method=cfg['method'], n=cfg['n'], order=cfg['order'], full_output=True,
+                                 richardson_terms=2)
+        if form == 3:
+            d = nd.Derivative(fun, step=st, method=cfg['method'], n=cfg['n'], order=cfg['order'])
+            d.full_output = True
+            return d
         return nd.Derivative(fun, step=st, method=cfg['method'], n=cfg['n'], order=cfg['order'], full_output=True)
     fun = MFUNS[cfg['fun']] if wrap is None else wrap(MFUNS[cfg['fun']])
     kw = dict(step=st, method=cfg['method'], full_output=True)
@@ -264,7 +275,9 @@ def cases(rng, tier, shard, nshards):
             u = rng.random()
             i_cfg = int(rng.integers(0, NPOOL))
             if u < 0.15:
-                ops.append(['construct', i_cfg])
+                ops.append(['construct', i_cfg, int(rng.integers(0, 4))])
+            elif u < 0.18:
+                ops.append(['copy_object', i_cfg, int(rng.integers(0, 2))])
             elif u < 0.55:
                 ops.append(['call', i_cfg, int(rng.integers(0, 2))])
             elif u < 0.67:
@@ -331,7 +344,17 @@ def run_case(case, ctx):
         for op in case['ops']:
             name = op[0]
             if name == 'construct':
-                objs[op[1]] = build(nd, pool[op[1]])
+                objs[op[1]] = build(nd, pool[op[1]], form=(op[2] if len(op) > 2 else 0))
+                ctx.count('constructed_in_form:%d' % (op[2] if len(op) > 2 else 0))
+            elif name == 'copy_object':
+                # the object in use is replaced by a (deep) copy of itself: a copy is the same configuration
+                import copy
+                if op[1] in objs:
+                    try:
+                        objs[op[1]] = copy.deepcopy(objs[op[1]]) if op[2] else copy.copy(objs[op[1]])
+                        ctx.count('object_copies')
+                    except Exception as exc:
+                        ctx.count('object_copy_raised:%s' % type(exc).__name__)
             elif name in ('call', 'reuse_other_point'):
                 i = op[1]
                 if i not in objs:
